@@ -322,6 +322,29 @@ func exec(c *Case) *Result {
 		}
 	}
 	if !hasMalformedChunks(c) {
+		// every chunk handed to the pre-read callback must be the chunk it claims to be
+		content0 := map[string][]byte{}
+		for _, f := range c.Files {
+			if f.Kind == "reg" {
+				content0[cleanName(f.Name)] = content(f)
+			}
+		}
+		for nm, v := range map[string]*View{"memory": res.mem, "db": res.db} {
+			for _, p := range v.Pre {
+				if strings.HasPrefix(p.Path, "<read ") {
+					continue
+				}
+				sum := p.Sum[:strings.Index(p.Sum, "/")]
+				if p.Dg != "" && p.Dg != "sha256:"+sum {
+					res.problems = append(res.problems, fmt.Sprintf("%s: pre-read callback for %s chunk %d+%d carries bytes that do not match its digest", nm, p.Path, p.ChOff, p.ChSize))
+				}
+				if b, ok := content0[p.Path]; ok {
+					if p.ChOff < 0 || p.ChOff+p.ChSize > int64(len(b)) || fmt.Sprintf("%x", sha256.Sum256(b[p.ChOff:p.ChOff+p.ChSize])) != sum {
+						res.problems = append(res.problems, fmt.Sprintf("%s: pre-read callback for %s chunk %d+%d does not carry the bytes of that range of the file", nm, p.Path, p.ChOff, p.ChSize))
+					}
+				}
+			}
+		}
 		src := map[string]string{}
 		for _, f := range c.Files {
 			if f.Kind == "reg" {
